@@ -218,7 +218,13 @@ def _load(
     defaults: list[str],
     overrides: list[tuple[str, str, Any]],
 ) -> RawConfig:
-    parser = configparser.RawConfigParser(inline_comment_prefixes=(";",))
+    # Not strict: a section or option repeated within a file is merged, with the
+    # later value taking precedence, instead of aborting the whole load with an
+    # uncaught DuplicateSectionError/DuplicateOptionError.
+    parser = configparser.RawConfigParser(
+        inline_comment_prefixes=(";",),
+        strict=False,
+    )
 
     # TODO: simply return path to config file for defaults so we can load it
     # all in the same way?
